@@ -150,6 +150,8 @@ DESC_SELS = [
     [{"t": "filter", "e": {"t": "rel", "q": {"segs": []}}}],
     [{"t": "name", "v": "a"}, {"t": "index", "v": -1}],
 ]
+# [?@..a]: existence of a descendant member "a" below each child
+EMBEDDED_DESC_FILTER = {"t": "filter", "e": {"t": "rel", "q": {"segs": [{"k": "desc", "sels": [{"t": "name", "v": "a"}], "sh": True}]}}}
 PREFIX_SELS = [{"t": "wild"}, {"t": "name", "v": "a"}, {"t": "index", "v": 0}, {"t": "index", "v": -1}]
 
 
@@ -179,6 +181,7 @@ def gen_scenario(rng, tier: str) -> Dict[str, Any]:
             sib.append((rng.randrange(total), rng.choice(("first", "last")), rng.choice(("scalar", "list", "dict"))))
         spec = chain_spec(kinds, bottom, sib)
         shape = {"class": "chain", "kinds": mix, "bottom": bottom, "siblings": len(sib), "npre": npre}
+        chain = {"kinds": kinds, "bottom": bottom, "sib": [list(x) for x in sib], "npre": npre, "delta": nest - L}
         # prefix navigates the deep path: name 'a' on objects; on arrays the
         # deep child's index depends on siblings -> use wildcard there
         segs = []
@@ -205,10 +208,19 @@ def gen_scenario(rng, tier: str) -> Dict[str, Any]:
         segs = []
         if rng.random() < 0.3:
             segs.append({"k": "child", "sels": [rng.choice(PREFIX_SELS)], "sh": False})
-    segs.append({"k": "desc", "sels": rng.choice(DESC_SELS), "sh": rng.random() < 0.5})
-    if rng.random() < 0.25:
-        segs.append({"k": "child", "sels": [rng.choice(PREFIX_SELS)], "sh": False})
-    return {"L": L, "nondet": nondet, "spec": spec, "shape": shape, "query": {"segs": segs}}
+    if rng.random() < 0.12 and L <= 150:
+        # the descendant segment sits inside a filter: applied to each child of the input node
+        segs.append({"k": "child", "sels": [EMBEDDED_DESC_FILTER], "sh": False})
+    else:
+        segs.append({"k": "desc", "sels": rng.choice(DESC_SELS), "sh": rng.random() < 0.5})
+        if rng.random() < 0.25:
+            segs.append({"k": "child", "sels": [rng.choice(PREFIX_SELS)], "sh": False})
+        elif rng.random() < 0.08 and L <= 60:
+            segs.append({"k": "desc", "sels": rng.choice(DESC_SELS[:3]), "sh": rng.random() < 0.5})
+    sc = {"L": L, "nondet": nondet, "spec": spec, "shape": shape, "query": {"segs": segs}}
+    if shape["class"] == "chain":
+        sc["chain"] = chain
+    return sc
 
 
 # ---------------------------------------------------------------------------
@@ -338,10 +350,25 @@ def replay(payload: Dict[str, Any]) -> List[Dict[str, Any]]:
 
 def shrink_candidates(payload: Dict[str, Any]):
     sc, s = payload["scenario"], payload["stream"]
+    # a smaller limit with the same distance between nesting and limit; fewer siblings
+    ch = sc.get("chain")
+    if ch:
+        for L2 in (1, 2, 3, 5, 10, 30):
+            nest = max(1, L2 + ch["delta"])
+            total = nest + ch["npre"]
+            if L2 < sc["L"] and total >= 1:
+                kinds = (ch["kinds"] * (total // max(1, len(ch["kinds"])) + 1))[:total]
+                sib = [x for x in ch["sib"] if x[0] < total]
+                ch2 = {**ch, "kinds": kinds, "sib": sib}
+                yield {**payload, "scenario": {**sc, "L": L2, "spec": chain_spec(kinds, ch["bottom"], [tuple(x) for x in sib]), "chain": ch2}, "stream": {**s, "trace": None}}
+        for i in range(len(ch["sib"])):
+            sib = ch["sib"][:i] + ch["sib"][i + 1 :]
+            yield {**payload, "scenario": {**sc, "spec": chain_spec(ch["kinds"], ch["bottom"], [tuple(x) for x in sib]), "chain": {**ch, "sib": sib}}}
     # drop prefix/suffix segments, simplify selectors
     q = sc["query"]
     for q2 in Q.shrink_query(q):
-        if sum(1 for g in q2["segs"] if g["k"] == "desc") == 1:
+        ndesc = sum(1 for g in q2["segs"] if g["k"] == "desc") + sum(1 for g in q2["segs"] for x in g["sels"] if x == EMBEDDED_DESC_FILTER)
+        if ndesc >= 1 and not (ch and len([g for g in q2["segs"] if g["k"] == "child"]) < len([g for g in q["segs"] if g["k"] == "child"]) and ch["npre"]):
             yield {**payload, "scenario": {**sc, "query": q2}}
     # schedule reduction
     tr = s.get("trace") or []
